@@ -4,6 +4,7 @@
   deadline is the earlier of the two.  Proved here: WHICH context goes where, the `Timeout > 0` guard, the deadline's
   base (the start reading), the release, and that the fallback always gets the caller's own context.
 -/
+import CircuitProofs.Props.C07Tie
 import CircuitProofs.Props.CircuitCommon
 import CircuitProofs.Lemmas.CircuitC
 namespace CM.Props.C07
